@@ -363,7 +363,7 @@ func (s *state) walk(node parse.Node) error {
 			return err
 		}
 	case *parse.UseNode:
-		return s.walkUseNode(node)
+		return s.walkUseNode(node, false)
 	case *parse.ForNode:
 		return s.walkForNode(node)
 	case *parse.SetNode:
@@ -395,7 +395,7 @@ func (s *state) walkChild(node parse.Node) error {
 			}
 		}
 	case *parse.UseNode:
-		return s.walkUseNode(node)
+		return s.walkUseNode(node, true)
 	case *parse.MacroNode, *parse.ImportNode, *parse.FromNode, *parse.SetNode:
 		// Macros defined or imported and variables set at the top level of an
 		// extending template are available to the blocks of that template (and,
@@ -497,7 +497,10 @@ func (s *state) walkIncludeNode(node *parse.IncludeNode) (tpl string, ctx map[st
 	return tpl, ctx, err
 }
 
-func (s *state) walkUseNode(node *parse.UseNode) error {
+// walkUseNode imports the blocks of another template. They rank below the
+// importing template's own blocks: just above its parent's when it extends one
+// (extending), and last of all when it extends nothing.
+func (s *state) walkUseNode(node *parse.UseNode, extending bool) error {
 	v, err := s.evalExpr(node.Tpl)
 	if err != nil {
 		return err
@@ -527,6 +530,10 @@ func (s *state) walkUseNode(node *parse.UseNode) error {
 		renamed := *v
 		renamed.Name = alias
 		blocks[alias] = &renamed
+	}
+	if !extending {
+		s.blocks = append(s.blocks, blocks)
+		return nil
 	}
 	l := len(s.blocks)
 	lb := s.blocks[l-1]
